@@ -8,11 +8,12 @@ AUDIT = "Audit/C10.lean"
 LEVEL = "proof"
 HARNESS = "c10_dns"
 HARNESS_FLAGS = ["-fno-access-control"]          # the harness prints records_data_ and the three section offsets
-CASE_START = ("new", "parse")
+CASE_START = ("new", "parse", "soa")
 MANIFEST = dict(
     text="Lean 4 theorems over a code-shaped, fault-explicit executable model of Tins::DNS (constructor index "
          "computation, compose_name, convert_records, the four section getters, encode_domain_name, add_query, "
-         "add_record, update_records, update_dname, serialization): memory safety of getters and edits on every "
+         "add_record, update_records, update_dname, serialization, and the typed SOA accessor soa_record::init / decode_domain_name / "
+         "soa_record::serialize): memory safety of getters and edits on every "
          "object state, refinement of the four sections under any history of insertions, serialize/re-parse, "
          "pointer loops / out-of-range pointers rejected. Tied to the code by differential correspondence on random "
          "and exhaustive edit histories over fresh, reference-encoded (with and without compression) and hostile "
@@ -326,6 +327,8 @@ def gen_case(rng, maxn=4, maxedits=6):
         if rng.random() < 0.12:
             ops.append("reparse")
     ops.append("reparse")
+    if rng.random() < 0.5:
+        ops.append("soas")
     if rng.random() < 0.3:
         ops.append(gen_edit(rng, pool, legal_only=True))
         ops.append("ser")
@@ -360,6 +363,7 @@ def realistic_case(rng):
     for _ in range(rng.randint(1, 5)):
         ops.append(gen_edit(rng, pool, legal_only=True))
     ops.append("reparse")
+    ops.append("soas")
     return ops
 
 
@@ -458,10 +462,95 @@ def hostile_case(rng):
         else:
             del w[i:i + rng.randint(1, 3)]
     ops = [f"parse {hexs(w)}"]
+    ops.append("soas")
     for s in rng.sample("qaud", 4)[:rng.randint(1, 4)]:
         ops.append(gen_edit(rng, pool, s, legal_only=True))
     ops.append("reparse")
+    ops.append("soas")
     return ops
+
+
+# -- the typed SOA accessor: DNS::soa_record(buffer, size) on its own, and soa_record(resource) on what the getters hand out
+
+def soa_expected(m, r, ints):
+    return "ok:" + ":".join([hexs(text_of(m)), hexs(text_of(r))] + [str(x) for x in ints])
+
+
+def soa_cases(rng, quick):
+    """`soa <hex>` cases (one op each): reference encodings of records with legal names (the record must come back
+    exactly), and the hostile shapes: no NUL at all, NUL only in the second name, truncated counters, pointers and
+    reserved label types in a name, labels past the end, more than 256 octets of text, every prefix, every length 0..40"""
+    out = []
+    S = lambda b: [f"soa {hexs(b)}"]
+    u32s = lambda v: struct.pack(">IIIII", *v)
+    edge = [0, 1, 255, 256, 65535, 65536, 2**31 - 1, 2**31, 2**32 - 1]
+
+    def names():
+        pool = [[b"example", b"com"]]
+        return gen_name(rng, pool), gen_name(rng, pool)
+
+    valid = []
+    for i in range(60 if quick else 600):
+        m, r = names()
+        if i == 0:
+            m, r = [], []                                                # the root twice
+        elif i == 1:
+            m, r = [b"y" * 63] * 3 + [b"z" * 61], [b"a"] * 127           # 255 octets on the wire, both ways
+        elif i == 2:
+            m, r = [b"ns1", b"example", b"com"], [b"hostmaster", b"example", b"com"]
+        ints = [rng.choice(edge + [rng.randrange(2**32)]) for _ in range(5)]
+        wire = wire_name(m) + wire_name(r) + u32s(ints)
+        valid.append((wire, m, r, ints))
+        tail = rng.choice([b"", b"", b"\0", b"\xff" * 3, bytes(rng.randrange(256) for _ in range(rng.randint(1, 9)))])
+        out.append([f"soa {hexs(wire + tail)} @V {soa_expected(m, r, ints)}"])
+    # every prefix of a few valid records: truncated counters, truncated names, missing terminators
+    for wire, m, r, ints in valid[2:(5 if quick else 40)]:
+        for i in range(len(wire)):
+            out.append(S(wire[:i]))
+    # truncated counters behind the shortest names
+    for k in range(21):
+        out.append(S(b'\0\0' + bytes(range(1, 21))[:k]))
+    # no NUL at all
+    for ln in range(0, 41):
+        out.append(S(bytes([1 + (i * 7) % 255 for i in range(ln)])))
+        out.append(S(bytes([0xff]) * ln))
+        lbl = (b"\x03abc" * 14)[:ln]
+        out.append(S(lbl))
+    # NUL only in the second name: the first name has no terminator of its own, so the counters are searched for one
+    for _ in range(20 if quick else 300):
+        m, r = names()
+        body1 = wire_name(m)[:-1] or b"\1a"
+        ints = bytes(rng.randrange(1, 256) for _ in range(20))
+        out.append(S(body1 + wire_name(r) + ints))
+        out.append(S(body1 + wire_name(r)))
+        out.append(S(wire_name(m) + (wire_name(r)[:-1] or b'\1a') + ints))     # ... and none in the second
+    # pointers / reserved label types / labels past the end / too much text
+    z20 = bytes(20)
+    for bad in (0x40, 0x7f, 0x80, 0xbf, 0xc0, 0xff):
+        out.append(S(bytes([bad, 0x0c, 0]) + b'\0' + z20))
+        out.append(S(b'\1a' + bytes([bad]) + b'a' * 70 + b'\0\0' + z20))
+        out.append(S(b'\0' + b'\2ab' + bytes([bad, 1, 0]) + z20))
+    for ln in (1, 2, 5, 62, 63):
+        out.append(S(bytes([ln + 1]) + b'a' * ln + b'\0\0' + z20))          # label one past the end
+        out.append(S(bytes([ln]) + b'a' * ln + b'\0\0' + z20))
+    for n63 in (3, 4, 5, 6):
+        out.append(S(wire_name([b'k' * 63] * n63) + b'\0' + z20))              # 255 / 256 / > 256 octets of text
+        out.append(S(b'\0' + wire_name([b'k' * 63] * n63) + z20))
+    out.append(S(wire_name([b'k' * 63] * 4 + [b'j']) + b'\0' + z20))
+    # every length 0..40 of zeros / ones / random
+    for ln in range(0, 41):
+        out.append(S(bytes(ln)))
+        for _ in range(2 if quick else 20):
+            out.append(S(bytes(rng.randrange(256) for _ in range(ln))))
+            out.append(S(bytes(rng.choice([0, 1, 2, 3, 0x3f, 0x40, 0xc0, 0x61]) for _ in range(ln))))
+    # mutants of valid records
+    for wire, m, r, ints in valid[: (30 if quick else 400)]:
+        w = bytearray(wire)
+        for _ in range(rng.choice([1, 1, 2, 3])):
+            i = rng.randrange(len(w))
+            w[i] = rng.choice([0, 1, 0x3f, 0x40, 0x80, 0xc0, 0xff, w[i] ^ (1 << rng.randrange(8))])
+        out.append(S(w))
+    return out
 
 
 def exhaustive_cases(rng, length, limit):
@@ -495,6 +584,7 @@ def exhaustive_cases(rng, length, limit):
                 else:
                     ops.append(add_op(s, shapes[k](i + 1)))
             ops.append("reparse")
+            ops.append("soas")
             out.append(ops)
             if len(out) >= limit:
                 return out
@@ -532,6 +622,9 @@ def classify(op, impl):
         tag += ":" + (w[2][1:] if len(w) > 2 and w[2].startswith("@") else "hostile")
         if "c0" in w[1][24:]:
             tag += ":ptr"
+    elif w[0] == "soa":
+        res = impl.split(" ")[-1]
+        tag += ":" + ("valid" if len(w) > 2 and w[2] == "@V" else "hostile") + ":" + (res if res.startswith("throw:") else res.split(":")[0])
     elif w[0].startswith("add") and len(w) > 2:
         tag += ":t" + (w[2] if w[2] in ("1", "2", "5", "6", "12", "15", "16", "28", "39", "41") else "other")
     if impl.startswith("throw:"):
@@ -582,6 +675,7 @@ def run(chk):
         ["new", f"addq {hexs(b'a.b')} 65 1"]])
     # directed streams first: malformed names, label counts, pointer chains, realistic responses, small-scope exhaustive
     go(malformed_cases(rng))
+    go(soa_cases(rng, quick))
     go(label_count_cases())
     go([chain_case(rng, d) for d in (2, 5, 31, 32, 33, 40)])
     go([realistic_case(rng) for _ in range(300 if quick else 3000)])
@@ -606,7 +700,9 @@ def run(chk):
     chk.cov["rule"] = ("cases = (initial message: fresh | reference-encoded without/with/mixed compression | realistic "
                        "compressed response | malformed | damaged, history of add_query/add_answer/add_authority/"
                        "add_additional with records of types A, AAAA, NS, CNAME, PTR, DNAME, MX, SOA, TXT/opaque, "
-                       "re-parse); every op observes header counts, the three section offsets, records_data_ and the "
+                       "re-parse; soa_record(buffer) on reference encodings of SOA data, on every prefix, on buffers without NUL / with the "
+                       "NUL only in the second name / with truncated counters / pointers / over-long text, every length 0..40; "
+                       "soa_record(resource) on every SOA record the getters hand out); every op observes header counts, the three section offsets, records_data_ and the "
                        "four getters; distinct_nontrivial counts distinct (operation, implementation result) pairs")
     chk.assumptions += [
         "inet_pton / inet_ntop are external: the generator passes inet_pton's result to the model; the text of an AAAA "
@@ -633,7 +729,8 @@ MODELLED_NOT_PROVED = [
     "with a Lean reference compressor), evaluated by the kernel on instances, checked by correspondence + oracle on "
     "compressed reference encodings; proved: memory safety on every input, insertion_is_shift and "
     "pointers_preserved_partial (resolution preserved along re-targeted paths) for any stored bytes",
-    "DNS::soa_record::init / decode_domain_name (typed decoding of SOA data handed out by the getters) is not modelled",
+    "DNS::soa_record setters and the soa_record(resource) path are modelled through soa_record::init only (the data string of "
+    "the resource is the buffer); DNS::resource::data(const soa_record&) is serialize() + assign",
     "inet_pton / inet_ntop are parameters of the model",
 ]
 
